@@ -168,6 +168,34 @@ MANIFEST_TEXT["C15"] = {
     "design_ref": "DESIGN.md section 3 / C15",
 }
 
+PLAN["C17"] = {
+    "pkg": "c17",
+    "tests": [
+        {"name": "TestLegacyMigration", "quick": (480000, 8), "thorough": (24000000, 16)},
+    ],
+    "budget": {"quick": 600, "thorough": 5400},
+    "rule": "typed legacy (Excellent1) syntax trees: numbers, strings (doubled quotes, backslashes), booleans, context references, all "
+            "binary operators, negation, redundant parentheses and 30 migratable functions (SUM, AVERAGE, MAX, MIN, POWER, ABS, MOD, "
+            "INT/ROUND*/TRUNC, LEN, LEFT, RIGHT, UPPER, LOWER, PROPER, REPT, CONCATENATE, IF, AND, OR, WORD, FIELD, FIRST_WORD, "
+            "WORD_COUNT, WEEKDAY/DAY/MONTH/YEAR of DATE(..)) nested at every operand position, rendered to legacy text with exactly the "
+            "parentheses the legacy grammar needs, embedded in body text. Oracle: MigrateTemplate succeeds, the result has exactly one "
+            "expression which parses, body text is unchanged, and Evaluator.Template of the migrated template equals the value computed "
+            "by an independent reference evaluator of the legacy tree (numbers numerically, 1e-9 relative tolerance after divisions; "
+            "booleans case-insensitively; text exactly); trees the reference declines are counted, not compared. Non-trivial = a "
+            "function under an operator, an operator under a function argument, or a literal with a quote/backslash; distinct by "
+            "legacy template text.",
+    "assumptions": COMMON_ASSUMPTIONS + [
+        "the reference evaluator implements Excel/legacy semantics only on the domain where legacy and new semantics are documented to coincide; everything else is declined",
+        "what a backslash inside a legacy string literal denotes is not asserted (goflow's own test pins it as passing through)",
+    ],
+}
+MANIFEST_TEXT["C17"] = {
+    "technique": "property-based testing (rapid): differential testing of MigrateTemplate + new evaluator against an independent reference evaluator of the generated legacy syntax tree",
+    "level_text": "Exploration: every generated legacy template either migrated to a template with the reference value or matched one of three listed findings (classified by tree shape, not filtered).",
+    "level_note": "Trusts the harness's reference evaluator (decimal arithmetic, rune-based text functions) on its restricted domain.",
+    "design_ref": "DESIGN.md section 3 / C17",
+}
+
 # every property without a registered check is listed here with the reason (kept current as checks are added)
 NOT_APPLICABLE = [{"property_id": pid, "reason": "check not built yet in this round (planned in DESIGN.md); nothing is claimed for it"}
                   for pid in ALL_IDS if pid not in PLAN]
